@@ -8,7 +8,7 @@ import fcntl, os, subprocess, sys, time
 
 REPO = os.environ.get('VERIF_REPO', '/repo')
 ROOT = os.path.dirname(os.path.dirname(os.path.abspath(__file__)))
-BUILD = os.path.join(ROOT, 'build')
+BUILD = os.environ.get('VERIF_BUILD', os.path.join(ROOT, 'build'))
 GUARD = 'FLAMEWING_ASL_RELEASES_VERIF'
 
 VARIANTS = {
